@@ -622,10 +622,12 @@ def rule_accum(c: Ctx) -> RuleResult:
                     rds = list(Reaching(c.cfg(g)).at_ast(at, name))
                     if not rds or depth > 2:
                         return False
+                    from ..interproc import expand as _exp
                     for d in rds:
-                        if d.kind == "assign" and isinstance(d.value, ast.Call) and U(d.value.func).split(".")[-1] == "getLine" and len(d.value.args) == 2 \
-                                and isinstance(d.value.args[1], ast.BinOp) and isinstance(d.value.args[1].op, ast.Add) \
-                                and isinstance(d.value.args[1].right, ast.Constant) and d.value.args[1].right.value == 1:
+                        a1 = _exp(c, g, d.value.args[1], d.stmt) if d.kind == "assign" and isinstance(d.value, ast.Call) and len(d.value.args) == 2 else None
+                        if a1 is not None and U(d.value.func).split(".")[-1] == "getLine" \
+                                and isinstance(a1, ast.BinOp) and isinstance(a1.op, ast.Add) \
+                                and isinstance(a1.right, ast.Constant) and a1.right.value == 1:
                             continue
                         if d.kind == "assign" and isinstance(d.value, ast.Name) and delim_row(g, d.value.id, d.stmt, depth + 1):
                             continue
